@@ -193,6 +193,11 @@ func runSeqCase(r *hx.Run, sub uint64, ops []string) {
 
 			continue
 		}
+		if len(f) > 0 && f[0] == "newdir" {
+			runDirLines(r, ops[i:])
+
+			return
+		}
 		if len(f) > 0 && f[0] == "newvarx" {
 			xw = &xWorld{v: reactive.NewVariable[int]()}
 			r.Line(op, "ok")
